@@ -67,11 +67,25 @@ def parse_sexp(s):
     return stack[0][0]
 
 def run_model(requests):
-    """requests: list of (fname, value). Returns list of parsed results."""
+    """requests: list of (fname, value). Returns list of parsed results.  Requests named spec_* go to the extracted
+    specification side (runner/specrun), all others to the extracted model (runner/modelrun)."""
+    if not requests:
+        return []
+    spec = [i for i, (n, _) in enumerate(requests) if n.startswith('spec_')]
+    if spec:
+        rest = [i for i in range(len(requests)) if not requests[i][0].startswith('spec_')]
+        out = [None] * len(requests)
+        for idxs, exe in ((rest, 'modelrun'), (spec, 'specrun')):
+            for i, r in zip(idxs, run_runner([requests[i] for i in idxs], exe)):
+                out[i] = r
+        return out
+    return run_runner(requests, 'modelrun')
+
+def run_runner(requests, exe):
     if not requests:
         return []
     inp = '\n'.join(name + ' ' + sexp(v) for name, v in requests) + '\n'
-    p = subprocess.run(['bash', '-c', 'ulimit -s unlimited 2>/dev/null; exec "$0"', os.path.join(RUNNER, 'modelrun')],
+    p = subprocess.run(['bash', '-c', 'ulimit -s unlimited 2>/dev/null; exec "$0"', os.path.join(RUNNER, exe)],
                        input=inp.encode(), stdout=subprocess.PIPE, stderr=subprocess.PIPE, timeout=900)
     lines = p.stdout.decode().split('\n')
     if lines and lines[-1] == '':
@@ -250,6 +264,8 @@ def build_coq(prop_file, clean=False):
     rc, out = sh(cmd, cwd=COQ, timeout=3100)
     return rc == 0, out, 'cd coq && coq_makefile -f _CoqProject -o Makefile && ' + cmd
 
+NEEDS_SPEC = [False]
+
 def build_runner():
     rc, out = sh('timeout 1200 make -j16 Extract/Extract.vo', cwd=COQ, timeout=1300)
     if rc != 0:
@@ -261,6 +277,18 @@ def build_runner():
         rc, out2 = sh('./build.sh', cwd=RUNNER, timeout=600)
         if rc != 0:
             return False, out2
+    if NEEDS_SPEC[0]:
+        # the executable specification side (Spec/SpecIO.v): a runner of its own, it depends on the proof files
+        rc, out = sh('timeout 2400 make -j16 Extract/ExtractSpec.vo', cwd=COQ, timeout=2500)
+        if rc != 0:
+            return False, out
+        gen = os.path.join(RUNNER, 'gen', 'spec.ml')
+        exe = os.path.join(RUNNER, 'specrun')
+        if (not os.path.exists(exe)) or os.path.getmtime(exe) < os.path.getmtime(gen) \
+                or os.path.getmtime(exe) < os.path.getmtime(os.path.join(RUNNER, 'modelrun.ml')):
+            rc, out2 = sh('./build_spec.sh', cwd=RUNNER, timeout=600)
+            if rc != 0:
+                return False, out2
     return True, ''
 
 # ---------------------------------------------------------------- known findings
@@ -411,6 +439,7 @@ def main(argv):
     sys.path.insert(0, os.path.join(VERIF, 'tie'))
     setup_impl()
     mod = importlib.import_module('props.' + prop_id)
+    NEEDS_SPEC[0] = bool(getattr(mod, 'NEEDS_SPEC', False))
     prop_file = 'Props/Prop%s.v' % prop_id
 
     if a.replay:
